@@ -840,9 +840,17 @@ def call_ext(it, dotted, args, kwargs):
             return id(args[0])
         if short == 'sorted':
             items = it.iterate(args[0])
-            if all(concrete_number(x) is not None for x in items) and not kwargs:
-                return sorted(items, key=concrete_number)
-            raise Undecidable('sorted over symbolic values')
+            keyf = kwargs.get('key')
+            rev = bool(it.truth(kwargs.get('reverse', False)))
+            keys = [_keyval(it, keyf, x) for x in items]
+            if all(concrete_number(k) is not None for k in keys):
+                ks = [concrete_number(k) for k in keys]
+            elif all(isinstance(k, str) for k in keys):
+                ks = keys
+            else:
+                raise Undecidable('sorted over symbolic values')
+            order = sorted(range(len(items)), key=lambda i: ks[i], reverse=rev)      # stable, like the builtin
+            return [items[i] for i in order]
         if short == 'round':
             raise Undecidable('round')
         if short == 'hasattr':
@@ -1001,12 +1009,18 @@ def call_ext(it, dotted, args, kwargs):
         if isinstance(v, (tuple, str, int, Rat)) or v is None:
             return v
         raise Undecidable('copy of %r' % (v,))
+    if short == 'partial' and mod == 'functools':
+        from .values import PyFunc
+        f0, pre, prekw = args[0], list(args[1:]), dict(kwargs)
+        return PyFunc(lambda it2, a, k: it2.call(f0, pre + list(a), dict(prekw, **k)), 'partial')
+    if short == 'OrderedDict' and mod == 'collections':
+        return call_ext(it, 'builtins.dict', args, kwargs)     # plain dicts keep insertion order
     if short == 'namedtuple':
         from .values import PyFunc
         fields = list(args[1]) if not isinstance(args[1], str) else args[1].replace(',', ' ').split()
         return PyFunc(lambda it2, a, k, fields=fields: Opaque('namedtuple', attrs=dict(list(zip(fields, a)) + list(k.items()))), 'namedtuple')
     if short == 'itemgetter':
-        k = as_int(args[0])
+        k = args[0] if isinstance(args[0], str) else as_int(args[0])
         return _ItemGetter(k)
     if short == 'tee':
         items = it.iterate(args[0])
